@@ -5,9 +5,11 @@
    3710385 (Locktime selects the time kind when an input is time-only) and fd68736 (Pset.Copy
    copies Global, Inputs and Outputs; staged operations end in publish, which runs SanityCheck
    on the staged packet FIRST and assigns only on success; SignInput works on the staged copy).
-   Still as before: the single-field setters mutate first and sanity-check afterwards; New
-   validates nothing; issuances can be attached to finalized inputs. (Input.GetUtxo no longer
-   writes: fix 7d6e201; empty derivation paths parse: fix 2b1b006.)
+   Also followed: 0ac2234 (every single-field setter stages its write and publishes), e4278d0
+   (issuance, reissuance and issuance blinding refuse a finalized input), cc83b33 (New validates
+   its arguments; the tapscript-signature and tap-derivation setters apply the parser's checks),
+   7d6e201 (Input.GetUtxo no longer writes), 2b1b006 (empty derivation paths parse).
+   Only Finalize / MaybeFinalize / MaybeFinalizeAll still work on the live packet.
 
    The state is abstract: it carries exactly what C11 talks about (declared counts, the list
    of inputs split into the part no operation changes after creation — outpoint, sequence,
@@ -321,17 +323,31 @@ Definition empty_pset (fb : option N) : pset :=
   {| g_nin := 0; g_nout := 0; g_flags := Some 3; g_fallback := fb; g_scalars := [];
      p_cores := []; p_auxs := []; p_outs := [] |}.
 
-(* creator.go New: no argument validation; outputs are converted one by one, a non-hex asset panics *)
+(* AddOutputs' / New's argument validation (OutputArgs.validate) *)
+Definition outarg_valid (a : outarg) : bool :=
+  (oa_cls a =? 0)
+  && (negb (nonempty (oa_script a)) || parse_ok (or_empty (oa_script a)))
+  && negb (oa_bk a =? 2).
+
+(* creator.go New (fix cc83b33): every argument is validated, then added *)
+Fixpoint new_ins (p : pset) (l : list inarg) : option pset :=
+  match l with
+  | [] => Some p
+  | a :: l' =>
+    if negb (ia_cls a =? 0) then None
+    else match add_input p a with None => None | Some p' => new_ins p' l' end
+  end.
+
 Fixpoint new_outs (p : pset) (l : list outarg) : init_res :=
   match l with
   | [] => IOk p
   | a :: l' =>
-    if oa_cls a =? 2 then IPanic
+    if negb (outarg_valid a) then IErr
     else match add_output p (to_outp a) with None => IErr | Some p' => new_outs p' l' end
   end.
 
 Definition init (ins : list inarg) (outs : list outarg) (fb : option N) : init_res :=
-  match add_inputs (empty_pset fb) ins with
+  match new_ins (empty_pset fb) ins with
   | None => IErr
   | Some p => new_outs p outs
   end.
@@ -748,7 +764,9 @@ Definition do_blind (p : pset) (a : blind_args) : (list aux * list outp * list N
   | BStop auxs o => stop auxs o
   | BGo auxs =>
     if is_fully_blinded p then stop auxs Ok
-    else if existsb (fun x => (Z.of_N (g_nin p) - 1 <? Z.of_N (fst x))%Z) (bl_iss a) then stop auxs Err
+    else if existsb (fun x => (Z.of_N (g_nin p) - 1 <? Z.of_N (fst x))%Z
+                              || match nth_error auxs (N.to_nat (fst x)) with Some ax => finalized ax | None => false end)
+                    (bl_iss a) then stop auxs Err
     else
       let outs_sorted := sort_by_idx (bl_outs a) in
       if negb (outargs_validate p (bl_last a) outs_sorted) then stop auxs Err
@@ -802,6 +820,7 @@ Definition do_issue (p : pset) (i : Z) (a : issue_args) : pset * outcome :=
   | inr o => (p, o)
   | inl (n, c, ax) =>
     if a_entropy ax then (p, Err)
+    else if finalized ax then (p, Err)              (* ErrInputAlreadyFinalized *)
     else if c_short c then (p, Err)                 (* GenerateEntropy: invalid tx hash length *)
     else
       let ax' := set_a_blindediss (Some (is_blinded a)) (set_a_nonce true (set_a_isskeys (is_tamt a)
@@ -826,6 +845,7 @@ Definition do_reissue (p : pset) (i : Z) (a : reissue_args) : pset * outcome :=
   | inl (n, c, ax) =>
     if a_entropy ax then (p, Err)
     else if negb (reissue_validate a) then (p, Err)
+    else if finalized ax then (p, Err)
     else
       let bidx addr := if addr_bk addr =? 0 then 0 else Z.to_N i in
       let outs := [mk_out (ri_aamt a) (ri_aaddr a) (bidx (ri_aaddr a)); mk_out (ri_tamt a) (ri_taddr a) (bidx (ri_taddr a))] in
@@ -849,53 +869,56 @@ Definition local_step (p : pset) (o : op) : (list aux * list outp * list N) * ou
   let same := (p_auxs p, p_outs p, g_scalars p) in
   match o with
   | ONwUtxo i t =>
-    on_input p i false (fun c a =>
-      if (c_t c =? t) && negb (c_short c) then (set_a_nwrp false (set_a_nw true a), LSan) else (a, LErr))
-  | OWUtxo i u => on_input p i false (fun c a => (set_a_w u a, LSan))
-  | ORedeem i s => on_input p i false (fun c a => (set_a_redeem s a, LSan))
-  | OWScript i s => on_input p i false (fun c a => (set_a_wscript s a, LSan))
+    staged_parts p (on_input p i false (fun c a =>
+      if (c_t c =? t) && negb (c_short c) then (set_a_nwrp false (set_a_nw true a), LSan) else (a, LErr)))
+  | OWUtxo i u => staged_parts p (on_input p i false (fun c a => (set_a_w u a, LSan)))
+  | ORedeem i s => staged_parts p (on_input p i false (fun c a => (set_a_redeem s a, LSan)))
+  | OWScript i s => staged_parts p (on_input p i false (fun c a => (set_a_wscript s a, LSan)))
   | OBip32 i k pathne =>
-    on_input p i false (fun c a =>
+    staged_parts p (on_input p i false (fun c a =>
       match k with
       | None => (a, LErr)
       | Some k => if key_in k (a_bip32 a) then (a, LErr) else (set_a_bip32 (a_bip32 a ++ [(k, pathne)]) a, LSan)
-      end)
-  | OSighash i n => on_input p i false (fun c a => (set_a_sighash n a, LSan))
-  | OUtxoRp i b => on_input p i false (fun c a => (set_a_urp b a, LSan))
+      end))
+  | OSighash i n => staged_parts p (on_input p i false (fun c a => (set_a_sighash n a, LSan)))
+  | OUtxoRp i b => staged_parts p (on_input p i false (fun c a => (set_a_urp b a, LSan)))
   | OExpAsset i lenok proof =>
-    on_input p i false (fun c a =>
+    staged_parts p (on_input p i false (fun c a =>
       if negb lenok then (a, LErr) else if negb proof then (a, LErr)
       else match get_utxo c a with
            | GuNil => (a, LErr)
            | GuPanic => (a, LPanic)
            | GuSome u a' => if negb (u_conf u) then (a', LErr)
                             else (set_a_assetproof true (set_a_expasset 32 a'), LSan)
-           end)
+           end))
   | OExpValue i v proof =>
-    on_input p i false (fun c a =>
+    staged_parts p (on_input p i false (fun c a =>
       if v =? 0 then (a, LErr) else if negb proof then (a, LErr)
       else match get_utxo c a with
            | GuNil => (a, LErr)
            | GuPanic => (a, LPanic)
            | GuSome u a' => if negb (u_conf u) then (a', LErr)
                             else (set_a_valproof true (set_a_expval v a'), LSan)
-           end)
+           end))
   | OTapIk i len =>
-    on_input p i false (fun c a => if 0 <? a_tapik a then (a, LErr) else (set_a_tapik len a, LSan))
+    staged_parts p (on_input p i false (fun c a => if 0 <? a_tapik a then (a, LErr) else (set_a_tapik len a, LSan)))
   | OTapMr i len =>
-    on_input p i false (fun c a => if 0 <? a_tapmr a then (a, LErr) else (set_a_tapmr len a, LSan))
+    staged_parts p (on_input p i false (fun c a => if 0 <? a_tapmr a then (a, LErr) else (set_a_tapmr len a, LSan)))
   | OTapLeaf i l =>
     staged_parts p (on_input p i false (fun c a =>
       if existsb (fun x => x =? l) (a_tapleaves a) then (a, LErr) else (set_a_tapleaves (a_tapleaves a ++ [l]) a, LSan)))
-  | OTapBip32 i d => staged_parts p (on_input p i false (fun c a => (set_a_tapbip32 (a_tapbip32 a ++ [d]) a, LSan)))
+  | OTapBip32 i d =>
+    staged_parts p (on_input p i false (fun c a =>
+      if existsb (fun x => tb_key x =? tb_key d) (a_tapbip32 a) then (a, LErr)     (* fix cc83b33 *)
+      else (set_a_tapbip32 (a_tapbip32 a ++ [d]) a, LSan)))
   | OOutBip32 i k pathne =>
-    on_output p i (fun o =>
+    staged_parts p (on_output p i (fun o =>
       match k with
       | None => (o, LErr)
       | Some k => if key_in k (o_bip32 o) then (o, LErr) else (set_o_bip32 (o_bip32 o ++ [(k, pathne)]) o, LSan)
-      end)
-  | OOutRedeem i s => on_output p i (fun o => (set_o_redeem s o, LSan))
-  | OOutWScript i s => on_output p i (fun o => (set_o_wscript s o, LSan))
+      end))
+  | OOutRedeem i s => staged_parts p (on_output p i (fun o => (set_o_redeem s o, LSan)))
+  | OOutWScript i s => staged_parts p (on_output p i (fun o => (set_o_wscript s o, LSan)))
   | OSign i sigok h k rs ws =>
     match in_index p i true with
     | inr o => (same, o)
@@ -909,6 +932,10 @@ Definition local_step (p : pset) (o : op) : (list aux * list outp * list N) * ou
     staged_parts p (on_input p i true (fun c a =>
       if finalized a then (a, LOk)
       else if 0 <? a_tapkeysig a then (a, LErr)
+      (* the parser's checks (fix cc83b33): key and leaf hash 32 bytes, signature 64/65, no second (key, leaf) pair *)
+      else if negb ((ts_pklen s =? 32) && (ts_lhlen s =? 32)) then (a, LErr)
+      else if negb (siglen_ok (ts_siglen s)) then (a, LErr)
+      else if existsb (fun x => (ts_pk x =? ts_pk s) && (ts_leaf x =? ts_leaf s)) (a_tapss a) then (a, LErr)
       else (set_a_tapss (a_tapss a ++ [s]) a, LSan)))
   | OBlind a => do_blind p a
   | OFinalize i =>
@@ -944,12 +971,6 @@ Definition set_flags (p : pset) (f : option N) : pset :=
   {| g_nin := g_nin p; g_nout := g_nout p; g_flags := f; g_fallback := g_fallback p; g_scalars := g_scalars p;
      p_cores := p_cores p; p_auxs := p_auxs p; p_outs := p_outs p |}.
 
-(* AddOutputs' argument validation *)
-Definition outarg_valid (a : outarg) : bool :=
-  (oa_cls a =? 0)
-  && (negb (nonempty (oa_script a)) || parse_ok (or_empty (oa_script a)))
-  && negb (oa_bk a =? 2).
-
 Definition step (p : pset) (o : op) : pset * outcome :=
   match o with
   | OSetMod f => (set_flags p f, Ok)
@@ -980,9 +1001,15 @@ Definition core_reparses (c : core) : bool :=
   negb (c_short c).                                  (* a 31-byte txid is written but not read back *)
 
 (* (a derivation with an empty path is read back since fix 2b1b006) *)
+Fixpoint nodup_pairs (l : list (N * N)) : bool :=
+  match l with
+  | [] => true
+  | x :: l' => negb (existsb (fun y => (fst y =? fst x) && (snd y =? snd x)) l') && nodup_pairs l'
+  end.
+
 Definition aux_reparses (a : aux) : bool :=
   forallb (fun s => ts_pklen s + ts_lhlen s =? 64) (a_tapss a)
-  && nodup_n (map ts_pk (a_tapss a))
+  && nodup_pairs (map (fun s => (ts_pk s, ts_leaf s)) (a_tapss a))     (* duplicate = same key AND same leaf hash *)
   && nodup_n (map tb_key (a_tapbip32 a)).
 
 Definition out_reparses (o : outp) : bool :=
